@@ -90,6 +90,7 @@ func runC06(p *core.Prog, r *core.Result) {
 		"R6.12 no result shared between module loads is memoised under a key that does not determine it: every Store/LoadOrStore on a sync.Map field in package dawn is keyed by everything (and the whole of everything) its value is computed from, and read under the key it is written under - otherwise what a module resolves to depends on which loader filled the cache first (the rule is R10.1's, which is exercised on the resolver's caches on every run; package dawn holds no such cache on the pinned tree)",
 		"R6.13 one file, one registry key: the module and target tables are keyed by printed labels, and the file a label names is found through label.Split, which ignores empty elements - so the key determines the file only if labels are canonical: every successful result of label.Clean is the empty string or what its scanner wrote, never the argument handed back unexamined (C12's R12.11; `//lib/` slipping through gives lib/BUILD.dawn two keys and it is executed twice)",
 		"R6.14 acyclic graphs always load: in package dawn the error of every fallible label constructor (label.Join, Parse, New, Clean, RelativeTo) is looked at before its result is used - the package walk joins directory names onto package paths, and a name no label can contain (a ':') otherwise yields the empty package, on which the recursive walk crashes (one call exempt by name: loadModule's RelativeTo of two Clean results)",
+		"R6.15 a cyclic load fails with the cyclic-dependency error whatever else went wrong: Project.load does not return the error of the first failed module that a range over the module table meets (map iteration is random); the failed modules' errors are collected and returned together",
 	}
 	r.NotDecided = []string{"termination and deadlock-freedom under every interleaving of the loader goroutines", "equality of the resulting target and flag sets across interleavings"}
 
@@ -474,6 +475,7 @@ func runC06(p *core.Prog, r *core.Result) {
 
 	checkCleanResultsFromScanner(p, r, "R6.13")
 	checkLabelErrorsNotDropped(p, r, "R6.14")
+	checkModuleErrorsNotPickedAtRandom(p, r, "R6.15")
 
 	// ---- R6.12 caches shared between loaders
 	nDawnCaches := checkSyncMapCaches(p, r, "R6.12", pkgRoot, "")
